@@ -446,6 +446,24 @@ fn run_impl(a: &Arrangement, l: &Laid) -> Result<Run, PanicInfo> {
                     collect_included(res.syntax_result().included(), &mut inc);
                     let mut span_fails = vec![];
                     let tree = res.syntax_result().syntax_ast().filter(|a| a.have_parse()).map(|a| a.syntax_node());
+                    // C12: no syntax diagnostic reported for the program as a whole => no error
+                    // node or token in the tree of any file of its include closure
+                    if !res.any_syntax_errors() {
+                        let mut trees: Vec<(String, oq3_syntax::SyntaxNode)> = vec![];
+                        if let Some(t) = &tree {
+                            trees.push(("main".into(), t.clone()));
+                        }
+                        for f in &inc {
+                            if let Some(a) = f.ast().filter(|a| a.have_parse()) {
+                                trees.push((f.file_path().display().to_string(), a.syntax_node()));
+                            }
+                        }
+                        for (name, t) in trees {
+                            if t.descendants_with_tokens().any(|e| e.kind() == oq3_syntax::SyntaxKind::ERROR) {
+                                span_fails.push(("C12:include:error-node-although-no-syntax-diagnostic-is-reported".to_string(), name));
+                            }
+                        }
+                    }
                     let mut parents = vec![];
                     collect_parents(res.semantic_errors(), 0, 0, &mut parents);
                     check_spans($main_text, tree, res.syntax_result().included(), &tagged, &parents, &mut span_fails);
@@ -848,6 +866,11 @@ pub const C03_CHAIN_CONSTRUCTS: &[&str] = &[
     "bool ee; if (ee); else if (ee) { }",
     "bool ef; while (ef);",
     "for int eg in [0:1];",
+    // designators naming something that is not an integer constant
+    "qubit dqq; bit[dqq] dqb;",
+    "int[pi] dpx;",
+    "gate dgg(dgt) q { int[dgt] dgx; }",
+    "def dff() { } float[dff] dfw;",
     "HEADERS:bool hun = 1 < 2;",
     "HEADERS:array[int, 3] hua;",
     "HEADERS:qubit hq; qubit hq;",
